@@ -293,7 +293,8 @@ impl DamagedSrc {
             // (the sectored read path never consults the compressed size: only a single unit is truncated by it)
             3 => compressible && single,
             1 => compressible && !enc && detectable,
-            2 => compressible && !single,
+            // (an encrypted table of 0xFF decrypts to arbitrary offsets, which only the strict path refuses)
+            2 => compressible && !single && (!enc || self.crc),
             6 => compressible && !single && self.crc && !enc,
             _ => true,
         }
@@ -314,4 +315,18 @@ pub fn damaged_groups(tier: Tier) -> Vec<Group> {
         .iter()
         .map(|h| Group { head: *h, opts: flags.iter().map(|f| Opt { d: [h[0], h[1], h[2], f[0], f[1], f[2], f[3], f[4]] }).collect() })
         .collect()
+}
+
+pub fn damaged_axes_json(tier: Tier) -> Value {
+    json!({
+        "writer_x_version": ["ArchiveBuilder V1", "mpqref V1", "ArchiveBuilder V2", "mpqref V2", "ArchiveBuilder V3", "ArchiveBuilder V4"],
+        "compression": tier.pick(vec!["zlib"], DCOMP.to_vec()),
+        "crypto": tier.pick(CRYPTO[..2].to_vec(), CRYPTO.to_vec()),
+        "layout (mpqref)": tier.pick(LAYOUTS[..1].to_vec(), LAYOUTS.to_vec()),
+        "sector_crc": tier.pick("on exactly for the multi-sector victim", "off, on"),
+        "files": {"names": NAMES, "lengths": lengths()},
+        "victim": tier.pick(vec![0, 1], vec![0, 1, 2, 3]),
+        "damage": KINDS,
+        "options": tier.pick("6 heads x 7 flag combinations", "full option product"),
+    })
 }
